@@ -589,6 +589,66 @@ func c14Run(c *fw.Ctx) {
 			}
 		}
 	})
+	// sweep 1f: cluster names as deployments spell them (capitals, digits, punctuation), with and without a
+	// neighbouring block whose name differs only in letter case: the block named exactly like the selected
+	// cluster is the one that applies, and a service configured for that cluster only is there
+	clusterNames := []string{"prod", "euWest", "Prod", "PROD-2", "prod_eu", "eu.west"}
+	drive(c, "cluster-name-spellings", -1, func(x *explore.Exec, owned bool) {
+		name := clusterNames[x.Choose("cluster-name", len(clusterNames))]
+		neighbour := []string{"none", "lower-cased", "upper-cased"}[x.Choose("neighbouring-block", 3)]
+		if !owned {
+			return
+		}
+		nb := map[string]string{"none": "", "lower-cased": strings.ToLower(name), "upper-cased": strings.ToUpper(name)}[neighbour]
+		if nb == name {
+			nb = ""
+		}
+		doc := "- service: billing\n  default:\n    from: billing.sso.test\n    to: billing.internal.test:8080\n    options:\n      allowed_groups:\n        - def-group\n      skip_auth_regex:\n        - '^/public/.*$'\n" +
+			"  '" + name + "':\n    to: billing-c.internal.test:8080\n    options:\n      allowed_groups:\n        - clu-group\n      skip_auth_regex:\n        - '^/healthz$'\n"
+		if nb != "" {
+			doc += "  '" + nb + "':\n    to: billing-n.internal.test:8080\n    options:\n      allowed_groups:\n        - neighbour-group\n"
+		}
+		doc += "- service: ledger\n  '" + name + "':\n    from: ledger.sso.test\n    to: ledger.internal.test:8080\n    options:\n      allowed_email_domains:\n        - ledger.test\n"
+		if err := os.WriteFile(file, []byte(doc), 0o644); err != nil {
+			panic(err)
+		}
+		uc := &proxy.UpstreamConfigs{ConfigsFile: file, Cluster: name, Scheme: "https"}
+		uc.DefaultConfig.Timeout = 10 * time.Second
+		uc.DefaultConfig.ProviderSlug = "idp"
+		err := proxy.SetUpstreamConfigs(uc, proxy.CookieConfig{Name: "_sso_proxy"}, &proxy.ServerConfig{})
+		ups := proxy.VerifUpstreamConfigs(uc)
+		c.Res.Outcome(fmt.Sprintf("cluster-name-spellings|%s|%s|err=%v|n=%d", name, neighbour, err != nil, len(ups)))
+		if err != nil {
+			c.Res.Count("rejected_documents", 1)
+			return
+		}
+		viol := func(key, what string) {
+			c.Res.Violate(fw.Violation{Property: "C14", Key: "C14/cluster-name-spellings/" + key, Scenario: "cluster-name-spellings", Choices: x.Choices(), What: what,
+				Detail: map[string]interface{}{"document": doc, "selected_cluster": name}})
+		}
+		seen := map[string]bool{}
+		for _, u := range ups {
+			seen[u.Service] = true
+			if len(u.AllowedGroups)+len(u.AllowedEmailDomains)+len(u.AllowedEmailAddresses) == 0 {
+				viol("open-to-everyone", fmt.Sprintf("upstream %s was loaded without any allow rule", u.Service))
+			}
+			if u.Service != "billing" {
+				continue
+			}
+			var pats []string
+			for _, re := range u.SkipAuthCompiledRegex {
+				pats = append(pats, re.String())
+			}
+			if fmt.Sprint(u.AllowedGroups) != "[clu-group]" || fmt.Sprint(pats) != "[^/healthz$]" || !strings.Contains(u.RouteConfig.To, "billing-c.") {
+				viol("block-of-the-selected-cluster-not-applied", fmt.Sprintf("cluster %q selected and a block of exactly that name states groups [clu-group], skip list [^/healthz$] and its own `to`; the upstream has groups %v, skip list %v, to %q", name, u.AllowedGroups, pats, u.RouteConfig.To))
+			} else {
+				c.Res.Count("positive_cluster_block_applied", 1)
+			}
+		}
+		if !seen["billing"] || !seen["ledger"] {
+			viol("upstream-of-the-selected-cluster-missing", fmt.Sprintf("cluster %q selected: billing (default + cluster block) and ledger (cluster block only) are configured for it, loaded: %v", name, seen))
+		}
+	})
 	// sweep 2: fail-closed
 	types := []string{"", "simple", "rewrite", "bogus"}
 	malforms := []string{"none", "bad-regex", "missing-from", "missing-to", "empty-service", "bad-rewrite-regexp", "blank-service", "tab-service"}
